@@ -641,7 +641,7 @@ func init() {
 			return 60
 		},
 		CaseTimeout: func(string) time.Duration { return 5 * time.Minute },
-		Rule: "one case = one whole-server run of a seeded tagged elementary stream through one ingest: (a) a reference RTSP publisher (ANNOUNCE with sprop/config; interleaved or UDP; single-NAL, STAP-A/AP, FU-A/FU; AAC with 1–4 AUs per packet and fragmented AUs; clock rates 8000…96000 incl. 44100/11025/22050; first sequence number near 65535; arrival perturbation none / swaps inside the window / duplicates / both, and ≥2000 audio frames in drift runs), (b) GB28181 PS over RTP after start_rtp_pub (UDP and TCP framing; PES split at 65535; PSM on every key frame or once; with/without system header; the same arrival perturbations - neighbouring packets swapped, packets duplicated - over UDP and over the TCP framing), (c) the customize-pub API in-process (AVCC and Annex-B, raw and ADTS AAC, FeedRtmpMsg). RTMP and HTTP-FLV subscribers attached before the publisher. " +
+		Rule: "one case = one whole-server run of a seeded tagged elementary stream through one ingest: (a) a reference RTSP publisher (ANNOUNCE with sprop/config; interleaved or UDP; single-NAL, STAP-A/AP, FU-A/FU; AAC with 1–4 AUs per packet and fragmented AUs; clock rates 8000…96000 incl. 44100/11025/22050; first sequence number near 65535; arrival perturbation none / swaps inside the window / duplicates / both, and ≥2000 audio frames in drift runs), (b) GB28181 PS over RTP after start_rtp_pub (UDP and TCP framing; PES split at 65535; PSM on every key frame or once; with/without system header; the same arrival perturbations - neighbouring packets swapped, packets duplicated - over UDP and over the TCP framing; pack headers with 0/3/6 stuffing bytes, the first RTP packet of a pack ending inside them; streams that start with the inter frames of a GOP whose key frame and PSM the receiver missed), (c) the customize-pub API in-process (AVCC and Annex-B, raw and ADTS AAC, FeedRtmpMsg). RTMP and HTTP-FLV subscribers attached before the publisher. " +
 			"oracle: sequence headers carry exactly the publisher's SPS/PPS/VPS/ASC; flattened NAL-unit / audio-frame sequences equal the source from the first forwarded unit (AUD and in-band parameter sets removed), tail ≤128 frames may be pending at teardown; key flag ⇔ IDR/IRAP; received ms − source ticks·1000/clock is one constant per track within 1 ms for every unit. cell = ingest × consumer × codec pair.",
 		Assumptions: []string{"reference RTSP client, RTP packetisers, PS muxer (harness/ref)", "perturbations never involve the first 4 packets of a track (the jitter window exists once the receiver is locked)", "UDP runs with kernel UDP error counter movement are inconclusive"},
 		MinCells: 8,
@@ -937,9 +937,37 @@ func c07Run(c *fw.Ctx, i int) {
 			}
 			return e
 		}
+		// pack headers with stuffing bytes (ISO 13818-1 2.5.3.3 allows up to 7), and in half of those
+		// cases the first RTP packet of a pack ends inside the stuffing
+		stuffN := []int{0, 0, 3, 6}[(i/8)%4]
+		splitHdr := stuffN > 0 && (i/16)%2 == 1
+		hdrLen := 14 + stuffN
+		packHdr := func(ticks uint64) []byte {
+			h := ref.PsPackHeader(ticks)
+			h[13] = 0xF8 | byte(stuffN)
+			for k := 0; k < stuffN; k++ {
+				h = append(h, 0xFF)
+			}
+			return h
+		}
+		if stuffN > 0 {
+			jd.ingest += fmt.Sprintf("-stuffing%d", stuffN)
+			if splitHdr {
+				jd.ingest += "-split"
+			}
+		}
+		// a receiver that tunes in mid-GOP: the stream starts with the inter frames of a GOP whose key
+		// frame (and program stream map) it has missed
+		midGop := vt != 0 && (i/10)%3 == 1
+		if midGop {
+			jd.ingest += "-starts-mid-gop"
+		}
 		sendPs := func(ps []byte, ts uint32) bool {
 			for off := 0; off < len(ps); {
 				n := 1400
+				if off == 0 && splitHdr {
+					n = 14 + (stuffN+1)/2
+				}
 				if off+n > len(ps) {
 					n = len(ps) - off
 				}
@@ -965,6 +993,10 @@ func c07Run(c *fw.Ctx, i int) {
 		skipAudio := 0
 		for fk, f := range src.es.Frames {
 			var ps []byte
+			if midGop && vi == 0 && f.Video && f.Key {
+				vi++ // the key frame the receiver has missed
+				continue
+			}
 			if !f.Video && skipAudio > 0 {
 				skipAudio--
 				ai++
@@ -972,7 +1004,7 @@ func c07Run(c *fw.Ctx, i int) {
 			}
 			if f.Video {
 				ticks := src.vTicks[vi] + psOff
-				ps = ref.PsPackHeader(ticks)
+				ps = packHdr(ticks)
 				if f.Key && (variant&1 == 0 || !psmSent) {
 					if variant&2 == 0 {
 						ps = append(ps, ref.PsSystemHeader(vt != 0, at != 0)...)
@@ -1006,7 +1038,7 @@ func c07Run(c *fw.Ctx, i int) {
 			} else {
 				// audio on the 90 kHz PS clock
 				ticks := uint64(float64(src.aTicks[ai])*90000/float64(src.aClock)) + psOff
-				ps = ref.PsPackHeader(ticks)
+				ps = packHdr(ticks)
 				p := f.Audio
 				if sp.ACodec == "aac" {
 					adts := func(raw []byte) []byte {
@@ -1030,7 +1062,7 @@ func c07Run(c *fw.Ctx, i int) {
 				if !psmSent {
 					ps = append(ps, ref.PsMap(vt, at)...)
 					psmSent = true
-					ps = append(ps[:14], append(ref.PsMap(vt, at), ps[14:len(ps)-len(ref.PsMap(vt, at))]...)...)
+					ps = append(ps[:hdrLen:hdrLen], append(ref.PsMap(vt, at), ps[hdrLen:len(ps)-len(ref.PsMap(vt, at))]...)...)
 				}
 				if !sendPs(ps, uint32(ticks)) {
 					c.Inconclusive("ps send failed")
